@@ -589,8 +589,11 @@ Fixpoint c03_fixpoint (c : cluster) (runs : list (scenario * outcome)) : bool :=
                                                 | _ => false end) (events t)) in
       let same := negb (o_destroy (sc_opts sc1)) && negb (o_destroy (sc_opts sc2))
                   && nl_eqb (map l_id (sc_local sc1)) (map l_id (sc_local sc2))
-                  && list_eqb (fun a b => Nat.eqb (l_ver a) (l_ver b) && Bool.eqb (l_keep a) (l_keep b) && nl_eqb (l_deps a) (l_deps b))
+                  && list_eqb (fun a b => Nat.eqb (l_ver a) (l_ver b) && Bool.eqb (l_keep a) (l_keep b) && nl_eqb (l_deps a) (l_deps b)
+                                          && Bool.eqb (l_baddep a) (l_baddep b) && Bool.eqb (l_finv a) (l_finv b))
                               (sc_local sc1) (sc_local sc2)
+                  (* a second run that prunes what the first one was told to leave is not "the same apply" *)
+                  && (negb (o_prune (sc_opts sc2)) || o_prune (sc_opts sc1))
                   && negb (is_dry (o_dry (sc_opts sc1))) && negb (is_dry (o_dry (sc_opts sc2)))
                   && negb (o_ssa (sc_opts sc2)) && negb (o_status_policy_all (sc_opts sc2)) in
       (negb (same && clean (out_trace o1) && clean (out_trace o2))
